@@ -1387,6 +1387,145 @@ def ascii_stdout_backend(ctx, reports):
         shutil.rmtree(tmp, ignore_errors=True)
 
 
+# --------------------------------------------------------------------------
+# pause -> resume on the real LocalBackend, payloads containing the tag
+# --------------------------------------------------------------------------
+RESUME_SCRIPT = r"""
+import json, os, sys, time
+from syne_tune import Reporter
+
+args = dict(zip(sys.argv[1::2], sys.argv[2::2]))
+sync_dir = args["--sync_dir"]
+plan = json.load(open(args["--plan"]))
+
+def signal_file(name):
+    open(os.path.join(sync_dir, name), "w").close()
+
+def wait_for(name):
+    t0 = time.time()
+    while not os.path.exists(os.path.join(sync_dir, name)) and time.time() - t0 < 120:
+        time.sleep(0.01)
+
+report = Reporter()
+if not os.path.exists(os.path.join(sync_dir, "run1_started")):
+    signal_file("run1_started")
+    print("starting the first run [tune-metri")
+    for kw in plan["run1"]:
+        report(**kw)
+    signal_file("run1_reported")
+    if plan["late"] is not None:
+        wait_for("go_late")                 # after the tuner's last poll of this run
+        report(**plan["late"])
+        signal_file("late_done")
+    time.sleep(120)                         # "training" until paused (killed)
+else:
+    print("resumed from checkpoint")
+    for kw in plan["run2"]:
+        report(**kw)
+"""
+
+TAGGY = ["first run [tune-metric]: {epoch 1}", "[tune-metric]: {", "x [tune-metric]: {} [tune-metric]: {\"a\": 1}",
+         "tune-metric", "[tune-metric]: ", "plain", "}", "{[tune-metric]: }\n[tune-metric]: {"]
+
+
+def gen_resume_plans(rng):
+    plans = []
+    for late in (False, True, rng.random() < 0.5):
+        ep = [0]
+
+        def rep():
+            ep[0] += 1
+            kw = dict(epoch=ep[0], note=rng.choice(TAGGY))
+            if rng.random() < 0.4:
+                kw["info"] = {rng.choice(TAGGY): [rng.choice(TAGGY)]}
+            return kw
+        run1 = [rep() for _ in range(rng.randint(1, 3))]
+        late_kw = rep() if late else None
+        run2 = [rep() for _ in range(rng.randint(1, 3))]
+        plans.append(dict(run1=run1, late=late_kw, run2=run2))
+    return plans
+
+
+def resume_stream(ctx, plans):
+    """run 1 reports (string values containing the tag), poll, [a late report after the last poll], pause_trial,
+    resume_trial, run 2 reports more. Independent checker: before the pause exactly run 1's reports were delivered;
+    after the resume every report of run 2 is delivered, in order, once, and nothing delivered before comes again."""
+    import logging
+    import shutil
+    import time
+    from syne_tune.backend import LocalBackend
+    from syne_tune.backend.trial_status import Status
+    case = dict(kind="resume", plans=plans)
+    tmp = tempfile.mkdtemp(prefix="c18_resume_")
+    logging.getLogger("syne_tune").setLevel(logging.WARNING)
+    backend, trials = None, []
+    strip = lambda ms: [{k: v for k, v in m.items() if k not in RESERVED} for m in ms]  # noqa
+    try:
+        script = os.path.join(tmp, "train_script.py")
+        open(script, "w").write(RESUME_SCRIPT)
+        sink = io.StringIO()
+        with contextlib.redirect_stdout(sink), contextlib.redirect_stderr(sink):
+            backend = LocalBackend(entry_point=script, rotate_gpus=False)
+            backend.set_path(results_root=os.path.join(tmp, "results"))
+        for t, plan in enumerate(plans):
+            sync = os.path.join(tmp, "sync%d" % t)
+            os.makedirs(sync)
+            planf = os.path.join(tmp, "plan%d.json" % t)
+            json.dump(plan, open(planf, "w"))
+            with contextlib.redirect_stdout(sink), contextlib.redirect_stderr(sink):
+                trial = backend.start_trial(config={"sync_dir": sync, "plan": planf})
+            trials.append((trial.trial_id, sync, plan))
+        for tid, sync, plan in trials:
+            if not _wait(os.path.join(sync, "run1_reported"), timeout=90):
+                ctx.notes.append("resume stream: trial script did not reach its marker (environment); skipped")
+                return
+            _, res = backend.fetch_status_results([tid])
+            first = [m for _, m in res]
+            if plan["late"] is not None:
+                open(os.path.join(sync, "go_late"), "w").close()
+                if not _wait(os.path.join(sync, "late_done"), timeout=60):
+                    ctx.notes.append("resume stream: late report not made (environment); skipped")
+                    return
+            with contextlib.redirect_stdout(sink), contextlib.redirect_stderr(sink):
+                backend.pause_trial(tid)
+                proc = backend.trial_subprocess.get(tid)
+                if proc is not None:
+                    proc.wait(timeout=60)
+                backend.resume_trial(tid)
+            second, status, t0 = [], Status.in_progress, time.time()
+            while time.time() - t0 < 90:
+                st, res = backend.fetch_status_results([tid])
+                second += [m for _, m in res]
+                status = st[tid][1]
+                if status != Status.in_progress:
+                    break
+                time.sleep(0.05)
+            _, res = backend.fetch_status_results([tid])
+            second += [m for _, m in res]
+            if status == Status.in_progress:
+                ctx.notes.append("resume stream: resumed run did not end (environment); skipped")
+                continue
+            ctx.count(("resume", plan), nontrivial=True)
+            ctx.traces_validated += 1
+            ctx.h("resume", "late_report" if plan["late"] is not None else "no_late_report")
+            got1, got2 = strip(first), strip(second)
+            if plan["late"] is not None and got2[:1] == [plan["late"]]:
+                got2 = got2[1:]     # the late report of run 1 was never delivered before; whether it may come now is C02's matter
+            if got1 != plan["run1"] or got2 != plan["run2"]:
+                ctx.violation("property", "LocalBackend pause/resume: run 1 reported %r (delivered before the pause: %r)%s; the resumed run "
+                              "reported %r, but after resume_trial the polls delivered %r"
+                              % (plan["run1"], got1, "" if plan["late"] is None else ", then %r after the last poll" % plan["late"],
+                                 plan["run2"], strip(second)), case=case,
+                              signature=dict(component="LocalBackend", defect="reports_lost_or_repeated_after_resume"))
+        ctx.sample(dict(kind="resume_stream", plans=plans))
+    finally:
+        for tid, _, _ in trials:
+            proc = backend.trial_subprocess.get(tid) if backend else None
+            if proc is not None and proc.poll() is None:
+                proc.kill()
+        shutil.rmtree(tmp, ignore_errors=True)
+
+
 def prefix_cases(ctx, rng, lines_cases, lines_meta):
     """retrieve() on every prefix of a stream (a reader that sees the file while it grows): either exactly the
     complete reports so far, or an exception caused by the cut line — never a wrong or missing dictionary"""
@@ -1461,6 +1600,9 @@ def run(ctx, replay=None):
         elif replay.get("kind") == "ascii_backend":
             ascii_stdout_backend(ctx, replay["reports"])
             return
+        elif replay.get("kind") == "resume":
+            resume_stream(ctx, replay["plans"])
+            return
         elif replay.get("kind") == "poll":
             polling_stream(ctx, [[tuple(c) for c in replay["chunks"]]])
             return
@@ -1495,6 +1637,7 @@ def run(ctx, replay=None):
         backend_kill_stream(ctx, gen_kill_plans(rng))
         polling_stream(ctx, gen_poll_streams(rng))
         gated_stream(ctx, gen_gate_plans(rng))
+        resume_stream(ctx, gen_resume_plans(rng))
         encoded_stream(ctx, [gen_enc_case(rng) for _ in range(ctx.n(120, 2000))])
         ascii_stdout_backend(ctx, [dict(epoch=1, name="caf\u00e9", tags=["\u2713", "\u4e2d\u6587"]),
                                    {"epoch": 2, "name": "na\u00efve \U0001F600", "k \u00e4": {"\u20ac": rng.choice(UNI[:4])}}])
